@@ -30,6 +30,9 @@ FORMS = {
 }
 
 
+LOAD2 = '2*f*v*dx'      # a second, different functional with the same inputs: expected vector = 2 x load
+
+
 def configs(ctx):
     base = dict(D=1, P1=2, P2=0, N1=3, N2=0, MaxLev=3, Disp=0, TruncMark=False, MaxCalls=2, MarkCap=0, DoEmit=True)
     out = []
@@ -40,7 +43,7 @@ def configs(ctx):
         out.append((name, c, workers, forms))
     add('1d-p2-n3-inf', ['mass', 'stiff', 'conv', 'load'], MarkCap=2)
     add('1d-p1-n2-L4-d1', ['mass', 'stiff', 'conv', 'load'], P1=1, N1=2, MaxLev=4, Disp=1, MaxCalls=3, MarkCap=1)
-    add('2d-p12-2x2-inf', ['mass', 'conv'], D=2, P1=1, P2=2, N1=2, N2=2, MarkCap=1, workers=4)
+    add('2d-p12-2x2-inf', ['mass', 'conv'], D=2, P1=1, P2=2, N1=2, N2=2, MarkCap=1, workers=10)
     if ctx.thorough:
         add('1d-p3-n3-d1', ['mass', 'stiff', 'conv', 'wmass', 'load'], P1=3, Disp=1, MaxCalls=3, MarkCap=2, workers=4)
         add('1d-p2-n4-d2-L4', ['mass', 'stiff', 'wmass', 'load'], N1=4, MaxLev=4, Disp=2, MaxCalls=3, MarkCap=2, workers=4)
@@ -114,7 +117,10 @@ args = c03.field_args(form, S, cfg['D'], hs.knotvectors(0))
 assemble.assemble(c03.FORMS[form]['expr'], hs, args=args)
 if form == 'load':
     from pyiga.hierarchical import HDiscretization
-    HDiscretization(hs, None, args).assemble_rhs()
+    from pyiga import vform
+    hd = HDiscretization(hs, None, args)
+    hd.assemble_rhs()
+    hd.assemble_functional(vform.parse_vf(c03.LOAD2, hs.knotvectors(0), args=args))
 print('ok')
 '''
 
@@ -160,8 +166,15 @@ def check_state(ctx, name, consts, forms, gal, rp, n_state):
                 if form == 'load':
                     exp = R.T @ Afine
                     got = assemble.assemble(spec['expr'], hs, args=dict(args))
-                    got2 = HDiscretization(hs, None, dict(args)).assemble_rhs()
-                    outs = [('assemble', np.asarray(got).ravel()), ('assemble_rhs', np.asarray(got2).ravel())]
+                    # ONE discretization object, several functionals one after the other (each must be the one asked for)
+                    from pyiga import vform
+                    hd = HDiscretization(hs, None, dict(args))
+                    got2 = hd.assemble_rhs()
+                    got3 = hd.assemble_functional(vform.parse_vf(LOAD2, kvs0, args=dict(args)))
+                    got4 = hd.assemble_rhs()
+                    outs = [('assemble', np.asarray(got).ravel()), ('assemble_rhs', np.asarray(got2).ravel()),
+                            ('assemble_functional-second-functional-on-same-object', np.asarray(got3).ravel() / 2.0),
+                            ('assemble_rhs-after-other-functional', np.asarray(got4).ravel())]
                 else:
                     exp = R.T @ Afine @ R
                     outs = [('assemble', assemble.assemble(spec['expr'], hs, args=dict(args)).toarray())]
